@@ -6,15 +6,22 @@
 //! The python driver `/verif/check` builds this binary, fans out workers, merges reports,
 //! writes the evidence file and prints VIOLATION / KNOWN-FINDING lines.
 
+#![feature(alloc_error_hook)]
+
+mod alloc;
 mod common;
 
 mod c04;
 mod c08;
+mod c09;
 mod c18;
 
 use std::{collections::BTreeSet, path::PathBuf};
 
 use common::{Ctx, Report, Tier};
+
+#[global_allocator]
+static GLOBAL: alloc::Tracking = alloc::Tracking;
 
 fn usage() -> ! {
     eprintln!("usage: kverif run <PROP> --tier T --seed N --worker I --workers N --out FILE | kverif replay <PROP> <file>");
@@ -103,6 +110,7 @@ fn dispatch_run(ctx: &Ctx, rep: &mut Report) {
     match ctx.prop.as_str() {
         "C04" => c04::run(ctx, rep),
         "C08" => c08::run(ctx, rep),
+        "C09" => c09::run(ctx, rep),
         "C18" => c18::run(ctx, rep),
         other => {
             eprintln!("unknown property {other}");
@@ -115,6 +123,7 @@ fn dispatch_replay(prop: &str, sub: &str, case: &serde_json::Value) -> Result<co
     match prop {
         "C04" => c04::replay(sub, case),
         "C08" => c08::replay(sub, case),
+        "C09" => c09::replay(sub, case),
         "C18" => c18::replay(sub, case),
         other => {
             eprintln!("unknown property {other}");
